@@ -40,6 +40,9 @@ for patch in "${list[@]}"; do
   detected=""
   for id in $checks; do
     out=$(VERIF_DIR="$W/out" "$W/target/release/simrun" check "$id" quick --no-evidence 2>&1); code=$?
+    if [ $code -ne 0 ] && [ $code -ne 1 ] && [ $code -ne 2 ]; then
+      out=$(VERIF_DIR="$W/out" "$W/target/release/simrun" locate "$id" quick 2>&1); code=$?
+    fi
     if [ $code -eq 1 ]; then detected="$detected $id($(echo "$out" | grep -o 'class=[^ ]*' | head -1))"; fi
     if [ $code -eq 2 ]; then echo "MUTANT $name: harness error on $id: $(echo "$out" | tail -2)"; fi
   done
